@@ -17,7 +17,7 @@ WEIGHTS = dict(
     itranspose=5, transpose=3, iswapaxes=4, conj=3, iconj=2,
     take_slice=4, add_trivial_leg=4, add_leg=3, squeeze=3,
     isort_qdata=4, ipurge_zeros=3, iscale_prefactor=3, mul=2, iscale_axis=3, scale_axis=1, iunary=1, unary=1, astype=1,
-    setitem=6, extend=2, gauge=3, iproject=5, permute=2, add_charge=1, drop_charge=1, change_charge=1,
+    setitem=6, iflip_leg=3, extend=2, gauge=3, iproject=5, permute=2, add_charge=1, drop_charge=1, change_charge=1,
     sort_legcharge=4, iadd=6, add=3, sub=2, iadd_op=2, isub_op=1, ibinary=3, binary=2,
     combine=6, as_completely_blocked=1, split=5, concatenate=3, outer=3, tensordot=8, trace=3,
     inner=1, getitem=3, setitem_npc=2, malformed=2,
@@ -353,6 +353,12 @@ def _(Hh, rng):
     return dict(a=n, out=Hh.fresh(), axis=ax if rng.random() < 0.7 else ax - a.rank, extra=extra)
 
 
+@g('iflip_leg')
+def _(Hh, rng):
+    n = any_t(Hh, rng)
+    return dict(a=n, k=rng.randrange(Hh.env[n].rank))
+
+
 @g('gauge')
 def _(Hh, rng):
     n = any_t(Hh, rng)
@@ -466,7 +472,7 @@ def gen_bin(Hh, rng, newout):
     if not cands:
         return None
     n, m = rng.choice(cands)
-    st = dict(a=n, b=m)
+    st = dict(a=n, b=m, valid=True)   # legs/qtotal verified compatible (after the documented label transposition)
     if newout:
         st['out'] = Hh.fresh()
     return st
@@ -556,6 +562,12 @@ def _(Hh, rng):
     a = Hh.env[n]
     pipes = [i for i, l in enumerate(a.legs) if is_pipe(l)]
     axes = None if rng.random() < 0.5 else rng.sample(pipes, rng.randint(1, len(pipes)))
+    labels = list(a._labels)
+    for ax in sorted(axes if axes is not None else pipes, reverse=True):
+        labels[ax:ax + 1] = a._split_leg_label(labels[ax], a.legs[ax].nlegs)
+    named = [l for l in labels if l is not None]
+    if len(set(named)) != len(named):
+        return None   # split labels collide with existing ones: the call raises (labels are C01's subject)
     st = dict(a=n, out=Hh.fresh(), axes=axes)
     if len(a._data) == 0:
         st['tag'] = 'no-blocks'
